@@ -249,14 +249,23 @@ fn run_case(sh: &mut Shard, case: u64, rng: &mut Rng) {
                     Op::Emergency => {
                         tag = "emergency".into();
                         sim.net.devs[0].mailbox.od.insert((idx, 1), vec![1, 2, 3, 4]);
-                        sim.net.devs[0].mailbox.emergency_next = Some((0x4321, 0x81));
-                        match sim.run(sd.sdo_read::<u32>(idx, 1)) {
+                        // any 16 bit error code / 8 bit error register (the low byte of the code sits
+                        // where an SDO response has its command byte)
+                        let want = match drng.below(4) {
+                            0 => (0x4321u16, 0x81u8),
+                            1 => (0xff00 | drng.u8() as u16, drng.u8()),
+                            _ => (drng.u16(), drng.u8()),
+                        };
+                        sim.net.devs[0].mailbox.emergency_next = Some(want);
+                        let wr = drng.bool();
+                        let r = if wr { sim.run(sd.sdo_write(idx, 1, 7u32)).map(|r| r.map(|_| ())) } else { sim.run(sd.sdo_read::<u32>(idx, 1)).map(|r| r.map(|_| ())) };
+                        match r {
                             Ok(Err(Error::Mailbox(MailboxError::Emergency { error_code, error_register }))) => {
-                                if (error_code, error_register) != (0x4321, 0x81) {
-                                    problems.push(format!("emergency-content:{error_code:#x} {error_register:#x}"));
+                                if (error_code, error_register) != want {
+                                    problems.push(format!("emergency-content:device sent {:#x} {:#x}, reported {error_code:#x} {error_register:#x}", want.0, want.1));
                                 }
                             }
-                            other => problems.push(format!("emergency-not-reported:{:?}", other.map(|r| r.map_err(|e| format!("{e:?}"))))),
+                            other => problems.push(format!("emergency-not-reported:code {:#06x} low-byte-class {:#x}: {:?}", want.0, (want.0 & 0xe0), other.map(|r| r.map_err(|e| format!("{e:?}"))))),
                         }
                     }
                     Op::WrongObject => {
